@@ -65,13 +65,26 @@ def _decoder(ctx: Ctx) -> dict[str, Any] | None:
     env = Env()
     env.vars[yp] = ("array", "y")
     body = func_body(fi)
-    # ---- fill(0) first
-    first = body[0]
-    ok_fill = isinstance(first, ast.Expr) and isinstance(
-        first.value, ast.Call) and ast.unparse(first.value.func) == \
-        f"{yp}.fill" and repo.const(fi.module, first.value.args[0]) == 0
+    # ---- fill(0) before any cell of the plan is read or written
+    from sa.cfg import CFG
+    cfg = CFG(fi.node)
+
+    def is_fill(nd: Any) -> bool:
+        x = nd.ast
+        return nd.kind == "stmt" and isinstance(x, ast.Expr) and isinstance(
+            x.value, ast.Call) and ast.unparse(x.value.func) == \
+            f"{yp}.fill" and len(x.value.args) == 1 and repo.const(
+                fi.module, x.value.args[0]) == 0 and not isinstance(
+                repo.const(fi.module, x.value.args[0]), bool)
+    uses = [nd for nd in cfg.nodes if nd.ast is not None and nd.kind in (
+        "stmt", "test") and not is_fill(nd) and any(
+        isinstance(x, ast.Subscript) and isinstance(x.value, ast.Name)
+        and x.value.id == yp for x in ast.walk(nd.ast))]
+    first = next((nd.ast for nd in cfg.nodes if is_fill(nd)), body[0])
+    ok_fill = bool(uses) and all(cfg.dominated_by(u, is_fill) for u in uses)
     ctx.ob("D15.1", fi, first, ok_fill,
-           "the destination plan is zeroed before any game is placed" if
+           f"the destination plan is zeroed before all {len(uses)} accesses "
+           "to its cells, on every path" if
            ok_fill else "the plan is not zeroed first: earlier contents "
            "could block or appear as games",
            construct="plan zeroed first")
@@ -360,110 +373,108 @@ def _space(ctx: Ctx, dec: dict[str, Any]) -> None:
            "exactly one", construct="one append per pair")
     if not ok_one:
         return
-    # ---- the appended term
+    # ---- the appended term and the orientation state, as functions of
+    # (round, i, j, previous orientation): the body of the innermost loop
+    # is normalised as a whole, so that conditional expressions and if
+    # statements, temporaries and operand orders are all the same to it
+    from sa.casesplit import Splitter, describe
     ev = make_evaluator(repo, fi, extra_call=py_calls)
     env = Env()
     n = Poly.var("n")
-    env.vars.update({"n": n, "rounds": Poly.var("rounds"),
-                     rv: Poly.var(rv), iv: Poly.var(iv), jv: Poly.var(jv)})
+    R = Poly.var("rounds")
+    for pname, sym in zip(fi.params, (n, R)):
+        env.vars[pname] = sym
+    pre_names: set[str] = set()
+    for s_ in func_body(fi):
+        if s_ is loops[0]:
+            break
+        if isinstance(s_, (ast.Assign, ast.AnnAssign)):
+            try:
+                env = ev.stmt(env, s_)
+                tg = s_.targets[0] if isinstance(s_, ast.Assign) \
+                    else s_.target
+                if isinstance(tg, ast.Name):
+                    pre_names.add(tg.id)
+            except Unsupported:
+                pass
+    env.vars.update({rv: Poly.var(rv), iv: Poly.var(iv), jv: Poly.var(jv)})
+    # loop-carried state: assigned inside the nest and initialised before it
+    assigned_in = {t.id for lp_s in ast.walk(loops[0]) if isinstance(
+        lp_s, (ast.Assign, ast.AnnAssign, ast.AugAssign))
+        for t in ast.walk(lp_s.targets[0] if isinstance(lp_s, ast.Assign)
+                          else lp_s.target)
+        if isinstance(t, ast.Name) and isinstance(t.ctx, ast.Store)}
+    state = sorted(assigned_in & pre_names)
+    O = Poly.var("O$prev")
+    o_prev = _eq(O, Poly.const(1))                 # an opaque boolean
+    inner_idx = inner.index(apps[0])
     try:
-        for s in func_body(fi):
-            if s is loops[0]:
-                break
-            if isinstance(s, (ast.Assign, ast.AnnAssign)):
-                try:
-                    env = ev.stmt(env, s)
-                except Unsupported:
-                    pass
-        order = Poly.var("order")
-        for s in inner:
-            if s is apps[0]:
-                break
-            if isinstance(s, (ast.Assign, ast.AnnAssign)) and isinstance(
-                    s.targets[0] if isinstance(s, ast.Assign)
-                    else s.target, ast.Name) and (
-                    s.targets[0] if isinstance(s, ast.Assign)
-                    else s.target).id == "order":
-                env.vars["order"] = order     # an opaque boolean
-                continue
-            env = ev.stmt(env, s)
-        code = ev.num(env, apps[0].value.args[0])
+        for lp, nxt in ((loops[0], loops[1]), (loops[1], loops[2])):
+            for s_ in lp.body:
+                if s_ is nxt:
+                    break
+                env = ev.stmt(env, s_)
+        for v in state:
+            if env.vars.get(v) in (("true",), ("false",)):
+                env.vars[v] = o_prev
+        out = ev.block(env, inner[:inner_idx])
+        code = ev.num(out, apps[0].value.args[0])
     except Unsupported as u:
         ctx.ob("D15.3", fi, u.node or apps[0], False,
                f"cannot normalise the appended code: {u}",
                construct="code decodes to its pair")
         return
     i, j = Poly.var(iv), Poly.var(jv)
-    div = n - Poly.const(1)
-    flag = ("not", _eq(order, Poly.const(0)))
+    r = Poly.var(rv)
+    zero, one = Poly.const(0), Poly.const(1)
+    div = n - one
+    sp = Splitter()
+    pR = _app("mod", R, Poly.const(2))
+    pr = _app("mod", r, Poly.const(2))
+    side: list[Lin] = []
+    for c in (("le", zero, j), ("lt", j, i), ("le", i, n - one),
+              ("le", zero, r), ("le", r, R - one), ("le", zero, pR),
+              ("le", pR, one), ("le", zero, pr), ("le", pr, one)):
+        side += sp.facts_of(c, True)[0]
+    # the two codes of the pair {i, j}: (home i, away j) -> i*(n-1) + j as
+    # j < i needs no diagonal skip; (home j, away i) -> j*(n-1) + (i-1).
+    # Euclid + the kernel's decoding (D15.1/D15.2 checked its arithmetic):
+    # quotient in 0..n-1, remainder in 0..n-2, skip exactly when rem >= quot
+    forms = {"home i": (i, j, False), "home j": (j, i - one, True)}
     problems: list[str] = []
+    for nm, (q, rem, shift) in forms.items():
+        ok_rng = all(entails(side, sp.lin(x)) for x in (
+            q, n - one - q, rem, n - Poly.const(2) - rem))
+        ok_shift = entails(side, sp.lin(rem - q)) if shift else entails(
+            side, sp.lin(q - rem - one))
+        if not (ok_rng and ok_shift):
+            problems.append(f"internal: Euclid range of form {nm}")
     n_cases = 0
-    for oflag in (True, False):
-        for m2_gt_m1 in (True, False):
-            m = ordenum.OrderModel([i, j])
-            m.ranks = (1, 0)                     # j < i
-            m.fixed = {flag: oflag, flag[1]: not oflag}
-            m1, m2 = (i, j) if oflag else (j, i)
-            # consistency of the inner comparison with this case
-            if (m.rank(m2) > m.rank(m1)) != m2_gt_m1:
-                continue
+    seen_forms: set[str] = set()
+    try:
+        for facts, (got,), trail in sp.cases((code,), list(side)):
             n_cases += 1
-            try:
-                got = _resolve(code, m)
-            except Unsupported as u:
-                problems.append(str(u))
-                continue
-            m2p = m2 - Poly.const(1) if m2_gt_m1 else m2
-            if got != m1 * div + m2p:
+            hit = [nm for nm, (q, rem, _s) in forms.items()
+                   if sp.equal(got, q * div + rem, facts)]
+            if not hit:
                 problems.append(
-                    f"order={oflag}: code is {show(got)}, not "
-                    f"m1*(n-1) + m2' with (m1, m2) = ({show(m1)}, "
-                    f"{show(m2)})")
-                continue
-            # remainder range 0 <= m2' <= n-2 (Fourier-Motzkin)
-            L = {iv: Lin.sym(iv), jv: Lin.sym(jv), "n": Lin.sym("n")}
-            facts = [L[jv], L[iv] - L[jv] - 1, L["n"] - 1 - L[iv],
-                     L["n"] - 2]
-
-            def lin(p: Poly) -> Lin:
-                r = Lin.const(p.terms.get((), 0))
-                for mono, c in p.terms.items():
-                    if mono == ():
-                        continue
-                    (a, e), = mono
-                    r = r + Lin.sym(a[1]).scale(c)
-                return r
-            rem = lin(m2p)
-            if not (entails(facts, rem) and entails(
-                    facts, L["n"] - 2 - rem)):
-                problems.append(f"remainder {show(m2p)} not proven inside "
-                                "0..n-2")
-                continue
-            # Euclid: code // div = m1, code % div = m2'; kernel decoding:
-            # home = m1 % n = m1 (0 <= m1 <= n-1), away = m2' (+1 if >= m1)
-            q = lin(m1)
-            if not (entails(facts, q) and entails(facts, L["n"] - 1 - q)):
-                problems.append("quotient not inside 0..n-1")
-                continue
-            shifted = entails(facts, rem - q)          # m2' >= m1
-            not_shifted = entails(facts, q - rem - 1)  # m2' <  m1
-            if not (shifted or not_shifted):
-                problems.append("cannot decide the diagonal skip")
-                continue
-            away = m2p + Poly.const(1) if shifted else m2p
-            if {m1, away} != {i, j}:
-                problems.append(
-                    f"code decodes to ({show(m1)}, {show(away)}) instead of "
-                    f"the pair {{{iv}, {jv}}}")
-    _pair_balance(ctx, fi, loops, ev, rv)
+                    f"[{describe(trail)[:160]}] the code is {show(got)}, "
+                    f"neither {iv}*(n-1)+{jv} nor {jv}*(n-1)+({iv}-1): it "
+                    f"does not decode to the pair {{{iv}, {jv}}}")
+                break
+            seen_forms.update(hit)
+    except Unsupported as u:
+        problems.append(f"case analysis of the appended code failed: {u}")
     ctx.count("space_cases", n_cases)
-    ok = not problems and n_cases == 2
+    ok = not problems and n_cases >= 2
     ctx.ob("D15.3", fi, apps[0], ok,
-           "in both orientations the appended code is m1*(n-1)+m2' with "
-           "0 <= m2' <= n-2, so the kernel's division/modulo recover "
-           "(m1, m2): the code decodes to the pair {i, j}; hence every "
-           "pairing occurs exactly `rounds` times" if ok else
-           "; ".join(problems)[:400], construct="code decodes to its pair")
+           f"on all {n_cases} outcomes of the comparisons of the loop body "
+           "the appended code is m1*(n-1)+m2' with {m1, m2} = {i, j} and "
+           "0 <= m2' <= n-2, so the kernel's division/modulo recover the "
+           "pair {i, j}; hence every pairing occurs exactly `rounds` times"
+           if ok else "; ".join(problems)[:400],
+           construct="code decodes to its pair")
+    _pair_balance(ctx, fi, loops, state, out, sp, side, (r, R, pr, pR, O))
     del dec
 
 
@@ -476,81 +487,60 @@ def _resolve(p: Poly, m: ordenum.OrderModel) -> Poly:
 
 
 # ------------------------------------------------------------------ D15.4
-def _pair_balance(ctx: Ctx, fi: FuncInfo, loops: list[ast.For], ev: Any,
-                  rv: str) -> None:
+def _pair_balance(ctx: Ctx, fi: FuncInfo, loops: list[ast.For],
+                  state: list[str], out: Env, sp: Any, side: list[Lin],
+                  syms: tuple) -> None:
     """Home/away roles of one pairing differ by at most one over the rounds.
 
-    Decided: (A) the rounds in which the orientation does not simply follow
-    the parity of the round number are at most one - the last round of an
-    odd number of rounds - so the number of `normal` rounds is even; (B) in
-    a normal round the orientation is a function of the round's parity that
-    alternates.  Hence every pairing has exactly half of its normal rounds
-    in each orientation and at most one further game.
+    Decided on the normalised loop body: in every round other than the last
+    round of an odd number of rounds the orientation after the body is a
+    function of the parity of the round number alone (the same function in
+    all those rounds, not depending on the orientation of the previous
+    pair), and it alternates with that parity.  The number of such rounds
+    is even, so each pairing has exactly half of them in each orientation,
+    plus at most one further game in the special round.
     """
-    from sa.casesplit import Splitter, describe
-    inner = loops[2].body
-    order_asg = next((s for s in inner if isinstance(
-        s, (ast.Assign, ast.AnnAssign)) and isinstance(
-        s.value, ast.IfExp) and isinstance(s.value.test, ast.Name)), None)
-    normal_asg = None
-    if order_asg is not None:
-        nname = order_asg.value.test.id
-        for lp in loops:
-            for s in lp.body:
-                if isinstance(s, (ast.Assign, ast.AnnAssign)) and isinstance(
-                        s.targets[0] if isinstance(s, ast.Assign)
-                        else s.target, ast.Name) and (
-                        s.targets[0] if isinstance(s, ast.Assign)
-                        else s.target).id == nname:
-                    normal_asg = s
-    if order_asg is None or normal_asg is None:
+    from sa.casesplit import describe
+    r, R, pr, pR, O = syms
+    zero = Poly.const(0)
+    if len(state) != 1 or not isinstance(out.vars.get(state[0]), tuple):
         ctx.ob("D15.4", fi, loops[0], False,
-               "the orientation rule `order = f(round) if normal else not "
-               "order` was not found", construct="orientation per round")
+               "the orientation state carried from pair to pair was not "
+               f"found (loop-carried booleans: {state})",
+               construct="orientation per round")
         return
-    r, R = Poly.var(rv), Poly.var("rounds")
-    env = Env()
-    env.vars.update({rv: r, "rounds": R, "n": Poly.var("n")})
-    problems = []
+    onew = out.vars[state[0]]
+    follows = ("or", _eq(pR, zero), ("le", r, R - Poly.const(2)))
+    even = _eq(pr, zero)
+    problems: list[str] = []
     n = 0
+    same = opp = 0
     try:
-        normal = ev.cond(env, normal_asg.value)
-        ov = order_asg.value
-        when_normal = ev.cond(env, ov.body)
-        pR = _app("mod", R, Poly.const(2))
-        pr = _app("mod", r, Poly.const(2))
-        zero, one = Poly.const(0), Poly.const(1)
-        sp = Splitter()
-        side = []
-        for c in (("le", zero, r), ("le", r, R - one), ("le", zero, pR),
-                  ("le", pR, one), ("le", zero, pr), ("le", pr, one)):
-            side += sp.facts_of(c, True)[0]
-        ref_normal = ("or", _eq(pR, zero), ("le", r, R - Poly.const(2)))
-        for facts, (a, b), trail in sp.cases((normal, ref_normal),
-                                             list(side)):
+        for facts, (o, f, e), trail in sp.cases((onew, follows, even),
+                                                list(side)):
             n += 1
-            if a != b:
+            if f != ("true",):
+                continue                 # the special round: at most one game
+            if o == e:
+                same += 1
+            else:
+                opp += 1
+            if same and opp:
                 problems.append(
-                    f"[{describe(trail)[:200]}] the round is "
-                    f"{'normal' if a == ('true',) else 'special'} but only "
-                    "the last round of an odd number of rounds may be "
-                    "special")
-        alt1 = _eq(pr, zero)
-        same = all(a == b for _, (a, b), _t in sp.cases(
-            (when_normal, alt1), list(side)))
-        opp = all(a != b for _, (a, b), _t in sp.cases(
-            (when_normal, alt1), list(side)))
-        if not (same or opp):
-            problems.append("in a normal round the orientation is not the "
-                            "parity of the round number: "
-                            + show_cond(when_normal)[:120])
+                    f"[{describe(trail)[:200]}] in a round that is not the "
+                    "last of an odd number of rounds the orientation is not "
+                    "a fixed function of the round's parity")
+                break
     except Unsupported as u:
         problems.append(f"cannot normalise the orientation rule: {u}")
+    if not problems and not (same or opp):
+        problems.append("no round follows the parity rule")
     ctx.count("orientation_cases", n)
-    ctx.ob("D15.4", fi, normal_asg, not problems,
+    ctx.ob("D15.4", fi, loops[0], not problems,
            "all rounds except possibly the last of an odd number follow "
            "the round's parity: every pairing gets half of an even number "
            "of rounds in each orientation plus at most one game - home/away "
            "counts per pairing differ by at most one" if not problems else
            "home/away balance per pairing is lost: " + problems[0],
            construct="orientation per round")
+    del O
